@@ -133,7 +133,7 @@ integer_to_hex(Integer value, Result& result)
 
 // fast exponent
 template <typename Result>
-void fill_exponent(int K, Result& result)
+void fill_exponent(int64_t K, Result& result)
 {
     if (K < 0)
     {
@@ -176,7 +176,8 @@ void prettify_string(const char *buffer, int length, int k, int min_exp, int max
        kk is such that 10^(kk-1) <= v < 10^kk
        this way kk gives the position of the decimal point.
     */
-    int kk = nb_digits + k;
+    // 64 bits: k comes from untrusted input in the binary decoders and may be next to INT_MAX or INT_MIN
+    const int64_t kk = static_cast<int64_t>(nb_digits) + k;
 
     if (nb_digits <= kk && kk <= max_exp)
     {
@@ -202,14 +203,14 @@ void prettify_string(const char *buffer, int length, int k, int min_exp, int max
             result.push_back(buffer[i]);
         }
         result.push_back('.');
-        for (int i = kk; i < nb_digits; ++i)
+        for (int i = static_cast<int>(kk); i < nb_digits; ++i)
         {
             result.push_back(buffer[i]);
         }
     } 
     else if (min_exp < kk && kk <= 0)
     {
-        offset = 2 - kk;
+        offset = static_cast<int>(2 - kk);
 
         result.push_back('0');
         result.push_back('.');
